@@ -109,10 +109,16 @@ impl<TR: ToTokens> FnDelegationCodegen<'_, TR> {
         let mut fn_ident = trait_fn.sig().ident.clone();
         fn_ident.set_span(span);
 
+        // `self` is hygienic: the forwarded `self` has to carry the span of the receiver it refers to
+        let self_span = match trait_fn_sig.inputs.first() {
+            Some(syn::FnArg::Receiver(receiver)) => receiver.self_token.span,
+            _ => span,
+        };
+
         let opt_self_comma = match (deps, entrait_sig.sig.inputs.first(), &self.impl_indirection) {
             (generics::FnDeps::NoDeps { .. }, _, _) | (_, None, _) => None,
             (_, _, ImplIndirection::Static { .. } | ImplIndirection::Dynamic { .. }) => None,
-            (_, Some(_), _) => Some(SelfArgComma(&self.impl_indirection, span)),
+            (_, Some(_), _) => Some(SelfArgComma(&self.impl_indirection, self_span)),
         };
 
         let arguments = entrait_sig
